@@ -52,6 +52,9 @@ REASON_EXHAUSTED = 0x51
 
 NT = [("sil",), ("stale", "0"), ("stale", "T-"), ("nak", "0"), ("nak", "d"), ("nak", "T-"), ("nak", "T+"),
       ("stale_old", "0"), ("stale_far", "d"), ("dstale", "0"),
+      # a NAK that asks for a frame other than the outstanding one (a left-over of an earlier exchange): still a
+      # NAK - the repeat follows at once, with the frame number the send started with
+      ("nak_old", "0"), ("nak_far", "d"),
       # an RSTACK in mid-send that is not the end of the story: the frame in flight goes on (and may still
       # be acknowledged), sends that were already waiting behind it start in the new session
       ("rstack", "0", 0x0B), ("rstack", "d", 0x0B)]
@@ -158,6 +161,8 @@ def run_case(case, acc: Acc | None = None):
                 "dstale": ("data", (frm - 2) % 8),       # a DATA frame still carrying an old ackNum
                 "nak": ("nak", frm),
                 "nakc": ("nak", (frm + 1) % 8),
+                "nak_old": ("nak", (frm - 1) % 8),
+                "nak_far": ("nak", (frm + 3) % 8),
                 "dack": ("data", (frm + 1) % 8),
                 "err": ("err", r[2] if len(r) > 2 else 0x51),
                 "rstack": ("rstack", r[2] if len(r) > 2 else 0x0B),
